@@ -24,7 +24,7 @@ ASSUMPTIONS = [
     "except the effect of Slash on a validator's tokens without unmatured unbonding entries (every step advances block "
     "time beyond the 1 s unbonding time)",
     "AllocateRewards is called with a funded funder and >= 1 vote period (it has no caller in non-test code)",
-    "the property predicate is only required inside the overflow-free domain of C10 (generated histories stay inside)",
+    "the property predicate is required for Params.Validate-accepted parameters, int64 bonded power and LegacyDec rates (C10 domain)",
     "one aggregate vote per validator with at most one tuple per pair (enforced by the msg server)",
 ]
 TRUSTED = ["coq/Lib/Dec.v (LegacyDec arithmetic on raw integers, validated against cosmossdk.io/math)",
